@@ -1166,6 +1166,8 @@ def run(ctx, pid):
     if pid == "C15":
         relative_demux_part(ctx, dist)
         dup_name_demux_part(ctx, dist)
+    if pid == "C20":
+        indexed_stats_part(ctx, dist)
     if pid in ("C03", "C04", "C09", "C10", "C11", "C15", "C16", "C20"):
         from . import pairprops
 
@@ -1401,6 +1403,52 @@ def dup_name_demux_part(ctx, dist):
                 ctx.violation("demultiplexing with shared adapter names: reads are not in the file of their adapter's name",
                               {"kind": "dupnames", "cfg": cfg.to_json(), "reads": [list(r) for r in reads], "expected": want, "observed": got if got is not None else "exit %r %s" % (res["exit"], res.get("error")),
                                "why": "adapters %r: expected %r, files hold %r" % (list(zip(order, seqs)), want, got)})
+                return
+
+
+def indexed_stats_part(ctx, dist):
+    """C20 with the adapter index in use (several anchored adapters of one kind, the default at the command line): the per-adapter
+    statistics -- matches, removed lengths by error count, bases in front of 3' matches -- are those of the same run with --no-index;
+    reads carry soft-masked (lower-case) bases, which the tally of adjacent bases files under 'none/other'"""
+    import random
+
+    rng = random.Random(ctx.seed * 15485863 + 20)   # own stream
+    with S.Scratch() as d:
+        for it in range(ctx.size(6, 60)):
+            for _try in range(40):
+                cfg, reads = indexed_info_case(rng)
+                three = all(sp.split("=", 1)[1].endswith("$") for _, sp in cfg.adapters)
+                if it % 3 == 2 or (three and len({len(sp.split("=", 1)[1]) for _, sp in cfg.adapters}) == 1):
+                    break
+            cfg.info_file = False
+            cfg.action = "trim"
+            if it % 3 != 2:
+                cfg.no_indels = True   # anchored 3' adapters of one length without indels: index strings of a single length
+            reads = [(nm, "".join((c.lower() if rng.random() < 0.5 else c) for c in sq), ql) for nm, sq, ql in reads]
+            c2 = S.Cfg.from_json(cfg.to_json())
+            c2.index = False
+            a, b = S.run_impl(cfg, reads, d), S.run_impl(c2, reads, d)
+            dist["statistics with the index in use"] = dist.get("statistics with the index in use", 0) + 1
+            ok = a["exit"] == 0 and b["exit"] == 0 and a.get("report") and b.get("report")
+            ctx.count(("indexed-stats", json.dumps(cfg.to_json(), sort_keys=True), tuple(reads)), bool(ok))
+            if not ok:
+                continue
+
+            def strip(ads):
+                out = json.loads(json.dumps(ads or []))
+                for x in out:
+                    for end in ("five_prime_end", "three_prime_end"):
+                        if x.get(end):
+                            x[end]["trimmed_lengths"] = [{k: v for k, v in row.items() if k != "expect"} for row in x[end]["trimmed_lengths"]]
+                return out
+
+            sa, sb = strip(a["report"].get("adapters_read1")), strip(b["report"].get("adapters_read1"))
+            same_reads = a["files"].get(0) == b["files"].get(0)
+            if same_reads and sa != sb:
+                diff = next(((x, y) for x, y in zip(sa, sb) if x != y), (sa, sb))
+                ctx.violation("adapter statistics differ between the indexed and the one-by-one search although the same matches were applied",
+                              {"kind": "indexed-stats", "cfg": cfg.to_json(), "reads": [list(r) for r in reads],
+                               "why": "with the index: %r; with --no-index: %r" % diff})
                 return
 
 
